@@ -289,6 +289,12 @@ def make_probe(desc, k):
             stmts = [A.Declare(V(n), A.Null()) for n in names] + [A.Assign(pe, src)] + prints
         elif pos == "for":
             stmts = [A.For(A.lst(V("_"), pe), A.lst(src), prints)]
+        elif pos == "fn_empty":
+            stmts = [A.FuncStmt("pf%d" % k, [pe], False, []), A.ExprStmt(A.call("pf%d" % k, src)), A.pr(S("returned"))]
+            lines = ["returned"]
+        elif pos == "for_empty":
+            stmts = [A.For(A.lst(V("_"), pe), A.lst(src), []), A.pr(S("looped"))]
+            lines = ["looped"]
         elif short_assign:
             # `{a, k} = src` inside a function whose scope already declares the names
             stmts = [A.FuncStmt("pf%d" % k, [], False, [A.Declare(V(n), A.Str("unset")) for n in names] + [A.Assign(pe, src)] + prints),
@@ -370,6 +376,16 @@ def make_probe(desc, k):
             "distinct_ok": (A.lst(A.lst(V(x)), V(y)), A.lst(A.lst(I(1)), I(2))),
         }
         pat, src = shapes_[shape]
+        if pos == "anon_params":
+            # the same names as plain parameters of an anonymous function
+            names2 = {"flat_list": [x, y, x], "two_nested": [x, x], "distinct_ok": [x, y]}.get(shape)
+            if names2 is None:
+                return None
+            stmts = [A.Declare(V("af%d" % k), A.FuncE([V(n) for n in names2], False, [A.pr(S("body"))])),
+                     A.ExprStmt(A.Call(V("af%d" % k), [(I(i), False) for i in range(len(names2))]))]
+            if shape == "distinct_ok":
+                return {"stmts": stmts + [A.pr(S("ok"))], "expect": ["body", "ok"], "tag": "dup_name_control", "what": "distinct anonymous parameters"}
+            return {"stmts": stmts, "expect": None, "tag": "dup_name", "what": "anonymous function with a repeated parameter name (%s)" % shape}
         if pos == "decl":
             stmts = [A.Declare(pat, src)]
         elif pos == "assign":
@@ -434,7 +450,7 @@ def run(rep, tier):
     rng = core.rng_for(PROP)
     P = pats(tier)
     descs = []
-    positions = ["decl", "assign", "for", "fn"]
+    positions = ["decl", "assign", "for", "fn", "fn_empty", "for_empty"]
     for rep_i in range(1 if tier == "quick" else 6):
       for pi in range(len(P)):
         seed = rng.randrange(1 << 30)
@@ -461,10 +477,20 @@ def run(rep, tier):
         descs.append(("misuse", m))
     for shape in ["flat_list", "nested_first", "nested_last", "two_nested", "object_values", "object_nested_list_first", "list_then_object",
                   "object_then_rest", "list_rest_same", "distinct_ok"]:
-        for pos in ("decl", "assign", "for", "fn", "fn_def_only"):
+        for pos in ("decl", "assign", "for", "fn", "fn_def_only", "anon_params"):
             descs.append(("dupname", shape, pos))
     rng.shuffle(descs)
     batch.run(rep, "seedverif.checks.c13", descs, "C13", oracle="abstract pattern matcher + round-trip laws")
+    # collect / spread markers in places where the grammar has no room for them: the file must be rejected as a whole
+    raw = ["fn f(a, b) { }\nxs := [2]\nprint(\"ran\")\nf(1, ..xs)\n", "xs := [2]\nprint(\"ran\")\nys := [1, ..xs, 3]\n", "xs := [2]\nprint(\"ran\")\nprint(..xs)\n",
+           "print(\"ran\")\nfn g(..a, b) { }\n", "xs := [1]\nprint(\"ran\")\n[..a, b] := xs\n", "print(\"ran\")\nx := ..[1]\n", "print(\"ran\")\nx := [1]..\n"]
+    for t, o in zip(raw, core.run_many([{"src": t} for t in raw])):
+        rep.evaluations += 1
+        rep.process_runs += 1
+        rep.tally("probes", "misplaced_marker_rejected_by_the_grammar")
+        if o.crashed or o.code != 103 or o.out:
+            rep.violation("C13/misplaced-marker", "a collect/spread marker in a place the grammar does not allow must reject the file: exit %s stdout %r stderr %r" % (o.code, o.out[:40], o.err[:120]),
+                          {"src": t, "observed": o.brief()})
     rep.exhaustive = True
     rep.cov["patterns_enumerated"] = len(P)
     rep.rule = ("%d patterns (all flat list patterns of width 0-3 over {name, _} with no / named / discarded rest; object patterns over every ordered key subset of {a, k, 'x y'} with shorthand or renames and optional rest; "
